@@ -142,4 +142,14 @@ func VerifC11Connections() {
 	vrt_Assert(r.ExtensionFields.Err != nil && errors.Is(r.ExtensionFields.Err, ErrNotExistKey), "key not freed when its connection ended")
 	_ = res
 	vrt_Cover("duplicate-refused", true)
+	// a new connection can now take the key, and commands are routed to it
+	f3 := &vFrame{id: 0x0002, phone: f1.phone, serial: 11}
+	c3, ev3 := mk()
+	vrt_ConnPushRead(c3.conn, f3.bytes())
+	vrt_Yield()
+	vrt_Assert(len(ev3.joins) == 1 && vrt_StrEq(ev3.joins[0], key) && len(ev3.leaves) == 0, "a new connection could not take the key freed by the old one")
+	go func() { _ = sm.write(NewActiveMessage(key, 0x8104, nil, 0)) }()
+	vrt_Yield()
+	vrt_Assert(len(c06Frames(vrt_ConnWritten(c3.conn))) == 2, "command not routed to the connection that took over the key")
+	vrt_Cover("reconnect", true)
 }
